@@ -27,7 +27,10 @@ struct Problem
   int fill = 0;        // how the rows of the current problem get into the solver:
                        // 0 written through fresh getJ()/getY()/getW() calls, 1 not written at all: the problem is the
                        // prefix of what the buffers already hold (only when they hold enough rows), 2 written through
-                       // references to J, Y, W that were obtained once, right after construction
+                       // references to J, Y, W that were obtained once, right after construction,
+                       // 3 only Y is rewritten (through a fresh getY()); J stays what the buffers hold,
+                       // 4 only J is rewritten (through a fresh getJ()); Y stays what the buffers hold
+  bool resolve = false; // after the solve, solve the same data again with the other un-weighted path (paths 0/1 only)
 };
 
 struct Plan
@@ -98,8 +101,20 @@ Outcome runHistory(const Plan & pl, Ctx & c)
   // references a caller may legitimately keep: the member matrices live as long as the solver
   Mat * Jref = &ls->getJ(); Vec * Yref = &ls->getY(); Vec * Wref = &ls->getW();
 
+  // a bystander: another solver that solves the same tiny exact problem at every step
+  LS bystander((size_t)2);
+  auto checkBystander = [&]() -> Outcome {
+      bystander.setDataSize(3);
+      bystander.getJ() << 1, 0, 0, 1, 1, 1; bystander.getY() << 1, 2, 3;
+      Vec xb = (no & 1) ? bystander.estimateUsingSVD() : bystander.estimateUsingCholeskyDecomposition();
+      if (!(std::fabs((double)xb(0) - 1.0) <= 1e-4 && std::fabs((double)xb(1) - 2.0) <= 1e-4)) {
+        return Outcome::fail("bystander-solver-changed", fmt("another solver object solving x+0y=1, 0x+y=2, x+y=3 returns (%.9g, %.9g)", (double)xb(0), (double)xb(1)));
+      }
+      return Outcome::pass();
+    };
   for (const Problem & pb : pl.problems) {
     ++no; ++c.steps;
+    {Outcome ob = checkBystander(); if (!ob.ok) {return ob;}}
     const int m = std::max(pb.m, p);
     Data d = makeData(pb, p);
     bool grew = ls->setDataSize((size_t)m);
@@ -118,10 +133,10 @@ Outcome runHistory(const Plan & pl, Ctx & c)
     }
     // how the caller reaches the buffers: fresh non-const getters, or references it kept from the start
     int fill = pb.fill;
-    if (fill == 1 && (prevM < 0 || grew || m > prevRows)) {fill = 0;}      // nothing to keep (fresh or reallocated buffers): write it
-    Mat & Jw = fill == 2 ? *Jref : (fill == 0 ? ls->getJ() : *Jref);
-    Vec & Yw = fill == 2 ? *Yref : (fill == 0 ? ls->getY() : *Yref);
-    Vec & Ww = fill == 2 ? *Wref : (fill == 0 ? ls->getW() : *Wref);
+    if ((fill == 1 || fill == 3 || fill == 4) && (prevM < 0 || grew || m > prevRows)) {fill = 0;}   // nothing to keep (fresh or reallocated buffers): write it
+    Mat & Jw = fill == 0 ? ls->getJ() : *Jref;
+    Vec & Yw = fill == 0 ? ls->getY() : *Yref;
+    Vec & Ww = fill == 0 ? ls->getW() : *Wref;
     if (fill == 1) {SIM_PROBE("problem_is_prefix_of_previous_buffers_no_write");}
     if (fill == 2) {SIM_PROBE("problem_written_through_references_kept_from_start");}
     // stale rows beyond the current problem hold leftovers: make any use of them loud
@@ -133,7 +148,9 @@ Outcome runHistory(const Plan & pl, Ctx & c)
         Yw(i) = big * (T)3; Ww(i) = (T)1000;
       }
     }
-    if (fill != 1) {
+    if (fill == 3) {ls->getY().head(m) = d.Y.template cast<T>(); SIM_PROBE("only_Y_rewritten");} else if (fill == 4) {
+      ls->getJ().topRows(m) = d.J.template cast<T>(); SIM_PROBE("only_J_rewritten");
+    } else if (fill != 1) {
       Jw.topRows(m) = d.J.template cast<T>(); Yw.head(m) = d.Y.template cast<T>();
       if (pb.path == 2) {Ww.head(m) = d.W.template cast<T>();}
     }
@@ -241,6 +258,16 @@ Outcome runHistory(const Plan & pl, Ctx & c)
                  20 * roundoff));
       }
     }
+    // ---- solving the same data again with the other un-weighted path: state carried from one estimate to the next
+    if (pb.resolve && pb.path <= 1) {
+      Vec x2 = solve(*ls, 1 - pb.path); auto other2 = fresh(1 - pb.path);
+      SIM_PROBE("second_solve_on_same_data_other_path");
+      double diff = (double)(x2 - other2.first).norm(), ref = std::max((double)x2.norm(), (double)other2.first.norm());
+      if (!(diff <= roundoff * ref + 1e-300) || !x2.allFinite()) {
+        return Outcome::fail("differs-from-fresh-solver", fmt("problem #%zu: a second solve of the same data with %s differs from a fresh solver's by %.3g relative "
+                 "(rounding allowance %.3g)", no, pathName[1 - pb.path], diff / (ref + 1e-300), roundoff));
+      }
+    }
     if (pb.scale < 1e-3) {SIM_PROBE("small_scale_problem");}
     if (pb.scale > 1e3) {SIM_PROBE("large_scale_problem");}
     if (pb.cond > 1e4) {SIM_PROBE("ill_conditioned_problem");}
@@ -306,7 +333,8 @@ struct PropC07
       pb.precond = r.chance(0.6) ? 0 : (int)r.range(1, 2);
       pb.covariance = r.chance(0.3);
       pb.poison = true;
-      pb.fill = fillStyle == 0 ? 0 : (int)r.below(3);
+      pb.fill = fillStyle == 0 ? 0 : (int)r.below(5);
+      pb.resolve = r.chance(0.2);
       p.problems.push_back(pb);
     }
     return p;
@@ -328,7 +356,7 @@ struct PropC07
       Json o = Json::object();
       o.set("data_size", pb.m).set("cond", pb.cond).set("scale", pb.scale).set("noise", pb.noise).set("solve", pathName[pb.path]).set("path", pb.path)
       .set("set_preconditioner", pb.precond == 0 ? "no" : (pb.precond == 1 ? "A" : "A,b")).set("precond", pb.precond).set("covariance", pb.covariance)
-      .set("poison_stale_rows", pb.poison).set("fill", pb.fill == 0 ? "fresh getJ()/getY()/getW()" : (pb.fill == 1 ? "none: prefix of what the buffers hold" : "references kept from construction")).set("fill_mode", pb.fill).set("data_seed_hi", (long long)(pb.seed >> 32)).set("data_seed_lo", (long long)(pb.seed & 0xffffffffULL));
+      .set("poison_stale_rows", pb.poison).set("fill", pb.fill == 0 ? "fresh getJ()/getY()/getW()" : (pb.fill == 1 ? "none: prefix of what the buffers hold" : (pb.fill == 2 ? "references kept from construction" : (pb.fill == 3 ? "only Y rewritten" : "only J rewritten")))).set("fill_mode", pb.fill).set("solve_again_other_path", pb.resolve).set("data_seed_hi", (long long)(pb.seed >> 32)).set("data_seed_lo", (long long)(pb.seed & 0xffffffffULL));
       a.push(o);
     }
     j.set("problems", a);
@@ -340,7 +368,7 @@ struct PropC07
     Plan p; p.isFloat = j["is_float"].b(); p.p = (int)j["estimate_size"].i(); p.ctorRows = (int)j["constructed_with_rows"].i();
     for (auto & o : j["problems"].a()) {
       Problem pb; pb.m = (int)o["data_size"].i(); pb.cond = o["cond"].d(); pb.scale = o["scale"].d(); pb.noise = o["noise"].d(); pb.path = (int)o["path"].i();
-      pb.precond = (int)o["precond"].i(); pb.covariance = o["covariance"].b(); pb.poison = o["poison_stale_rows"].b(); pb.fill = o.has("fill_mode") ? (int)o["fill_mode"].i() : 0;
+      pb.precond = (int)o["precond"].i(); pb.covariance = o["covariance"].b(); pb.poison = o["poison_stale_rows"].b(); pb.fill = o.has("fill_mode") ? (int)o["fill_mode"].i() : 0; pb.resolve = o["solve_again_other_path"].b();
       pb.seed = ((uint64_t)o["data_seed_hi"].i() << 32) | (uint64_t)o["data_seed_lo"].i();
       p.problems.push_back(pb);
     }
@@ -363,6 +391,7 @@ struct PropC07
       if (pb.precond != 0) {Plan q = p; q.problems[k].precond = pb.precond - 1; out.push_back(q);}
       if (pb.path != 1) {Plan q = p; q.problems[k].path = 1; out.push_back(q);}
       if (pb.fill != 0) {Plan q = p; q.problems[k].fill = 0; out.push_back(q);}
+      if (pb.resolve) {Plan q = p; q.problems[k].resolve = false; out.push_back(q);}
     }
     return out;
   }
@@ -388,7 +417,7 @@ struct PropC07
   {
     std::string s = o.cls + "|" + (p.isFloat ? "float" : "double") + "|";
     int rows = std::max(0, p.ctorRows);
-    for (auto & pb : p.problems) {int m = std::max(pb.m, p.p); s += m > rows ? "G" : (m < rows ? "S" : "E"); s += "scw"[pb.path]; if (pb.fill) {s += pb.fill == 1 ? "k" : "r";} rows = std::max(rows, m);}
+    for (auto & pb : p.problems) {int m = std::max(pb.m, p.p); s += m > rows ? "G" : (m < rows ? "S" : "E"); s += "scw"[pb.path]; if (pb.fill) {s += "?kryj"[pb.fill];} if (pb.resolve) {s += "2";} rows = std::max(rows, m);}
     return s;
   }
   std::vector<uint64_t> sampleIndexes() const {return {0, 2, 3, 4};}
@@ -396,7 +425,7 @@ struct PropC07
   {
     return {"grow_reallocates_buffers", "shrink_leaves_stale_rows", "same_size_as_buffers", "smaller_problem_after_larger", "grow_within_existing_buffers",
       "preconditioner_carried_over_from_earlier_problem", "default_constructed_then_setEstimateSize", "problem_is_prefix_of_previous_buffers_no_write",
-      "problem_written_through_references_kept_from_start", "small_scale_problem", "large_scale_problem", "ill_conditioned_problem", "square_problem"};
+      "problem_written_through_references_kept_from_start", "only_Y_rewritten", "only_J_rewritten", "second_solve_on_same_data_other_path", "small_scale_problem", "large_scale_problem", "ill_conditioned_problem", "square_problem"};
   }
   Json describe() const
   {
